@@ -441,7 +441,10 @@ class TemperatureServiceData(ServiceData):
     @property  # type: ignore[override]
     def data(self) -> float:
         """This attribute is a `float` value."""
-        return struct.unpack("<i", self._data[:3] + b"\0")[0] * 10**-2
+        value = struct.unpack("<i", self._data[:3] + b"\0")[0]
+        if value & 0x800000:  # sign-extend the 24-bit value
+            value -= 0x1000000
+        return value * 10**-2
 
     @data.setter
     def data(self, value: Union[float, bytes, bytearray]):
